@@ -708,6 +708,18 @@ pub fn eval_cond(en: &Env, c: &Cond) -> Option<Option<bool>> {
         },
     }
 }
+/// WHERE of UPDATE / DELETE (select/filter.rs where_value_is_true): TRUE selects, FALSE / NULL do not, an integer selects
+/// when it is not 0; None = the predicate cannot be evaluated or is neither (UPDATE then fails, DELETE keeps the row)
+pub fn where_selects(en: &Env, c: &Cond) -> Option<bool> {
+    if let Cond::Val(e) = c {
+        return match eval_expr(en, e)? {
+            Cell::Null => Some(false),
+            Cell::Int(z) => Some(z != 0),
+            Cell::Str => None,
+        };
+    }
+    Some(eval_cond(en, c)? == Some(true))
+}
 pub fn rows_of<'a>(obs: &'a [(usize, Vec<Row>)], t: usize) -> &'a [Row] {
     obs.iter().find(|(i, _)| *i == t).map(|(_, r)| r.as_slice()).unwrap_or(&[])
 }
